@@ -235,6 +235,32 @@ def auto_discharge(mir, site_fn, b, bb, t):
             return "constant capacity"
         if x is not None and x[0] == "call" and (x[1] or "").endswith("size_hint"):
             return "capacity is a table constant (size_hint)"
+    if re.search(r"Index(Mut)?::index(_mut)?$", name) and len(args) == 2:
+        # constant index / range into a fixed-size array: `bytes[0..=2]` on a `[u8; 4]`
+        m = re.search(r"\[[^;\]]+; (\d+)\]", (t.get("argtys") or [""])[0] or "")
+        if m:
+            n = int(m.group(1))
+            r = args[1]
+            lo = hi = None
+            if r[0] == "const" and r[1] is not None:
+                lo, hi = r[1], r[1] + 1
+            elif r[0] == "call" and (r[1] or "").endswith("RangeInclusive::<Idx>::new") and all(x[0] == "const" and x[1] is not None for x in r[3]):
+                lo, hi = r[3][0][1], r[3][1][1] + 1
+            elif r[0] == "agg" and "ops::range::Range" in str(r[1]) and all(x[0] == "const" and x[1] is not None for x in r[2]):
+                nm = str(r[1][1]).split("::")[-1] if len(r[1]) > 1 else ""
+                vals = [x[1] for x in r[2]]
+                if nm == "Range":
+                    lo, hi = vals
+                elif nm == "RangeTo":
+                    lo, hi = 0, vals[0]
+                elif nm == "RangeToInclusive":
+                    lo, hi = 0, vals[0] + 1
+                elif nm == "RangeFrom":
+                    lo, hi = vals[0], n
+                elif nm == "RangeFull":
+                    lo, hi = 0, n
+            if lo is not None and 0 <= lo <= hi <= n:
+                return "constant range %d..%d inside a fixed-size array of %d elements" % (lo, hi, n)
     if re.search(r"BufMut::(put_slice|put_bytes|put_u8|put)$", name):
         if ga and ("alloc::vec::Vec<u8>" in ga[0] or "BytesMut" in ga[0]):
             return "Vec<u8>/BytesMut grow on demand (remaining_mut is unbounded)"
